@@ -36,7 +36,7 @@ ASSUMPTIONS = [
     "scale factors are non-zero integers (negative included); power p in {2,3}",
     "non-Hermitian problems are restricted to the class outside known finding K1",
 ]
-REQUIRED_CLASSES = {"all": ["relation=scale", "relation=merge", "relation=split", "relation=permute", "relation=pad", "relation=power", "mode=nonhermitian", "params=3"]}
+REQUIRED_CLASSES = {"all": ["relation=scale", "relation=merge", "relation=split", "relation=permute", "relation=pad", "relation=power", "mode=nonhermitian", "params=3", "symbolic-matrix-input"]}
 
 
 def strategy(tier):
@@ -230,10 +230,20 @@ def check_case(case, enforce_all=False):
     if q is None:
         out.labels.append("skipped:split-not-applicable")
         return out
-    ctx0, res0 = mm.outputs(p, out, "original problem")
+    in0 = in1 = (None, None)
+    if p["repr"] == "sympy" and p["hermitian"] and case["par"].get("as_matrix", True):
+        # exact problems are also fed as ONE symbolic matrix, so that the Taylor expansion of the input is part of
+        # the relation (merging two parameters = substituting the same symbol)
+        from vlib.gen_matrix import matrix_input
+
+        a, b = matrix_input(p), matrix_input(q)
+        if a is not None and b is not None:
+            in0, in1 = a, b
+            out.labels.append("symbolic-matrix-input")
+    ctx0, res0 = mm.outputs(p, out, "original problem", *in0)
     if res0 is None:
         return out
-    ctx1, res1 = mm.outputs(q, out, f"transformed problem ({case['relation']})")
+    ctx1, res1 = mm.outputs(q, out, f"transformed problem ({case['relation']})", *in1)
     if res1 is None:
         return out
     if isinstance(back, tuple):  # split: original(n) = sum of transformed over the split parameter pair
